@@ -16,6 +16,7 @@ from .. import cards, rel, yrun
 from ..engine import digest
 from ..ref import ref_basis, ref_conv, ref_rge
 
+HISTORY_SWEEP = True
 ID = "C05"
 XS = [0.01, 0.0316227766, 0.3 * (1 + 1e-9), 0.8]
 TOL_R = 1e-12
